@@ -644,9 +644,12 @@ const FGrammar = "grammar"
 
 // Grammar generates one history. ok=false when the checker rejects the program.
 func Grammar(r *rand.Rand) (prog.History, bool) {
-	// a third of the programs come from the stateful-object family (stateful.go)
-	if r.Intn(3) == 0 {
+	// a third of the programs come from the stateful-object family (stateful.go), a sixth from the field-conformance family (fieldconf.go)
+	switch r.Intn(12) {
+	case 0, 1, 2, 3:
 		return Stateful(r)
+	case 4, 5:
+		return FieldConformance(r)
 	}
 	g := &gram{r: r}
 	hist := prog.History{Origin: "grammar"}
